@@ -2,4 +2,4 @@ From Coq Require Extraction ExtrOcamlBasic.
 From GVgen Require Import SpanGen.
 From GV Require Import Front.Spans.
 Extraction Language OCaml.
-Extraction "model.ml" find_at last_enclosing variant scope_at out_of_scope type_ok wf_b plain_b no_force_b.
+Extraction "model.ml" find_at last_enclosing variant scope_at out_of_scope nearest_binder type_ok wf_b plain_b no_force_b.
